@@ -160,6 +160,10 @@ def gen_module(rng):
                 src.append(dpad + closing)
         src += [pad + '    return None', '']
         src += [''] * rng.randint(0, 2)
+        if rng.random() < 0.35:
+            # characters that str.splitlines() treats as line boundaries but the Python tokenizer does not: a form feed on a line of
+            # its own (a page break), separators inside comments and string literals.  They do not end a line of the file
+            src += [rng.choice(['\x0c', '# page\x0cbreak', '# sep \u2028 inside a comment', 'SEP%d = "a\x1cb\x85c"' % j, '\x0c# after a form feed', '# vt \x0b tab'])]
         expectations.append((('K%d.' % j if in_class else '') + 'f%d' % j, fail, stm, style))
     src.insert(0, 'def deco(f):\n    return f\n')
     return '\n'.join(src) + '\n', expectations
